@@ -8,7 +8,7 @@ CONSTANTS
   Acts = {"Scrape", "Exemplar", "Meta", "Delete", "Evict", "Truncate", "Restart"}
   Script <- ScriptDup
   PreCuts = {0, 3}
-  MetaOrds = {"asc", "desc"}
+  MetaOrds = {"stream"}
   EmitMode = "class"
 VIEW View
 INVARIANTS TypeOK C15All
